@@ -296,6 +296,229 @@ def shift_rule(model, res):
                  f"bar k sees its own or a later close")
 
 
+# ------------------------------------------------------------------------------------------ R-TIME (data preparation)
+BACKWARD_METHODS = {"bfill", "backfill", "interpolate"}
+PREP_EXCLUDED_PKGS = ("demeter/result/", "demeter/indicator/", "demeter/strategy/", "demeter/utils/")
+
+
+def _const(e):
+    if isinstance(e, ast.Constant):
+        return e.value
+    if isinstance(e, ast.UnaryOp) and isinstance(e.op, ast.USub) and isinstance(e.operand, ast.Constant) and isinstance(e.operand.value, (int, float)):
+        return -e.operand.value
+    return Ellipsis      # not a constant
+
+
+def prep_rule(model, res):
+    """Time direction of the data preparation (loaders, gap filling, resampling) - everything outside the analytics
+    packages.  (a) A backward fill moves later data into earlier rows: it is admitted only on a frame that was forward
+    filled before it on every path of the function (then only the rows before the first datum are touched), or inside
+    the fill dispatcher under its `method == "bfill"` test; the column rule table and every call of the dispatching
+    fill function must ask for forward fills only.  (b) shift/diff/pct_change take a constant period >= 0... for shift
+    >= 1 where a price is built (shift_rule).  (c) centred windows and interpolation use later rows.  (d) Every
+    resampling reachable from Actuator.switch_interval - the time index, the price frame, each market's _resample and
+    the wrapper they call - uses one binning convention (closed / label / origin / offset), so bar k of every frame
+    aggregates the same minutes."""
+    n = 0
+    fill_funcs = {}        # name -> FuncInfo of repository functions that dispatch on a fill method parameter
+    for f in model.all_functions():
+        if "method" in f.params and any(isinstance(x, ast.Call) and isinstance(x.func, ast.Attribute) and x.func.attr in ("ffill", "bfill")
+                                        for x in ast.walk(f.node)):
+            fill_funcs[f.name] = f
+    # the column rule table: Rule(agg, fillna_method, fillna_value)
+    for m in model.modules.values():
+        if m.relpath.startswith(PREP_EXCLUDED_PKGS):
+            continue
+        for node in ast.walk(m.tree):
+            if isinstance(node, ast.Call) and isinstance(node.func, ast.Name) and node.func.id == "Rule":
+                meth = node.args[1] if len(node.args) > 1 else next((k.value for k in node.keywords if k.arg == "fillna_method"), None)
+                if meth is None:
+                    continue
+                v = _const(meth)
+                n += 1
+                ok = v in (None, "ffill", "pad")
+                res.ob("R-TIME", f"column rule fills forward only ({ast.unparse(node)[:60]})", f"{m.relpath}:{node.lineno}", ok=ok)
+                if not ok:
+                    res.find("R-TIME", m.name.split(".", 1)[-1], f"column rule `{ast.unparse(node)[:70]}`", f"{m.relpath}:{node.lineno}",
+                             f"`{ast.unparse(node)}` fills gaps with `{ast.unparse(meth)}`: a gap in bar k is filled from a LATER bar")
+
+    def scan_block(f, stmts, ff):
+        """ff = names holding a frame that has been forward filled (only leading rows can still be empty)."""
+        nonlocal n
+        for st in stmts:
+            if isinstance(st, (ast.FunctionDef, ast.AsyncFunctionDef, ast.ClassDef)):
+                continue
+            if isinstance(st, ast.If):
+                # the fill dispatcher: `elif method == "bfill": return df.bfill(...)` is value-dependent; its callers are checked
+                tests_bfill = any(isinstance(c, ast.Constant) and c.value in ("bfill", "backfill") for c in ast.walk(st.test))
+                a = scan_block(f, st.body, set(ff)) if not tests_bfill else set(ff)
+                b = scan_block(f, st.orelse, set(ff))
+                ff = a & b
+                continue
+            if isinstance(st, (ast.For, ast.While, ast.With, ast.Try)):
+                for blk in ("body", "orelse", "finalbody"):
+                    ff = scan_block(f, getattr(st, blk, []) or [], ff) & ff
+                for h in getattr(st, "handlers", []):
+                    scan_block(f, h.body, set(ff))
+                continue
+            # expressions of this statement
+            for x in ast.walk(st):
+                if not isinstance(x, ast.Call):
+                    continue
+                fn = x.func
+                name = fn.attr if isinstance(fn, ast.Attribute) else (fn.id if isinstance(fn, ast.Name) else None)
+                kws = {k.arg: k.value for k in x.keywords if k.arg}
+                if isinstance(fn, ast.Attribute) and name in BACKWARD_METHODS or (
+                        isinstance(fn, ast.Attribute) and name == "fillna" and _const(kws.get("method", ast.Constant(None))) in ("bfill", "backfill")):
+                    recv = fn.value.id if isinstance(fn.value, ast.Name) else None
+                    ok = name != "interpolate" and recv is not None and recv in ff
+                    n += 1
+                    res.ob("R-TIME", f"backward fill `{ast.unparse(x)[:50]}` only after a forward fill of the same frame (head rows only)",
+                           f.loc(x), ok=ok)
+                    if not ok:
+                        res.find("R-TIME", f.qualname, f"backward fill `{ast.unparse(x)[:60]}`", f.loc(x),
+                                 f"`{ast.unparse(x)[:80]}` in {f.qualname} fills gaps from LATER rows and the frame was not forward filled "
+                                 f"before it on every path: a missing bar k takes the data of bar k+1 (look-ahead through data preparation)")
+                if name in fill_funcs or (name == "fillna" and isinstance(fn, ast.Name)):
+                    mv = kws.get("method")
+                    if mv is None and isinstance(fn, ast.Name) and name in fill_funcs:
+                        ps = fill_funcs[name].params
+                        if "method" in ps and len(x.args) > ps.index("method"):
+                            mv = x.args[ps.index("method")]
+                    if mv is not None:
+                        v = _const(mv)
+                        # forwarding the caller's own `method` parameter is fine (checked at that caller's call sites)
+                        fwd = isinstance(mv, (ast.Name, ast.IfExp, ast.Attribute)) and f.name in ("fillna", "df_fill_na") + tuple(fill_funcs)
+                        ok = v in (None, "ffill", "pad") or fwd
+                        n += 1
+                        res.ob("R-TIME", f"fill call `{ast.unparse(x)[:50]}` asks for a forward fill", f.loc(x), ok=ok)
+                        if not ok:
+                            res.find("R-TIME", f.qualname, f"fill call `{ast.unparse(x)[:60]}`", f.loc(x),
+                                     f"`{ast.unparse(x)[:80]}` requests fill method `{ast.unparse(mv)}`: gaps are filled from later rows")
+                if isinstance(fn, ast.Attribute) and name in ("shift", "diff", "pct_change"):
+                    pv = x.args[0] if x.args else kws.get("periods")
+                    v = 1 if pv is None else _const(pv)
+                    if isinstance(v, (int, float)) and not isinstance(v, bool):
+                        ok = v >= 0
+                        n += 1
+                        res.ob("R-TIME", f"`{ast.unparse(x)[:40]}` looks back (period >= 0)", f.loc(x), ok=ok)
+                        if not ok:
+                            res.find("R-TIME", f.qualname, f"`{ast.unparse(x)[:60]}`", f.loc(x),
+                                     f"`{ast.unparse(x)[:80]}` shifts LATER rows into earlier ones (negative period)")
+                if isinstance(fn, ast.Attribute) and name in ("rolling", "ewm", "expanding") and _const(kws.get("center", ast.Constant(False))) is not False:
+                    n += 1
+                    res.ob("R-TIME", f"window `{ast.unparse(x)[:40]}` is trailing", f.loc(x), ok=False)
+                    res.find("R-TIME", f.qualname, f"centred window `{ast.unparse(x)[:60]}`", f.loc(x),
+                             f"`{ast.unparse(x)[:80]}` uses a centred window: bar k depends on later bars")
+            # forward-filled bookkeeping
+            if isinstance(st, (ast.Assign, ast.AnnAssign)) and st.value is not None:
+                tg = st.targets[0] if isinstance(st, ast.Assign) else st.target
+                if isinstance(tg, ast.Name):
+                    v = st.value
+                    filled = False
+                    if isinstance(v, ast.Call):
+                        fn = v.func
+                        nm = fn.attr if isinstance(fn, ast.Attribute) else (fn.id if isinstance(fn, ast.Name) else None)
+                        kws = {k.arg: k.value for k in v.keywords if k.arg}
+                        if isinstance(fn, ast.Attribute) and nm in ("ffill", "pad"):
+                            filled = True
+                        elif isinstance(fn, ast.Attribute) and nm in ("bfill", "backfill") and isinstance(fn.value, ast.Name) and fn.value.id in ff:
+                            filled = True
+                        elif nm in ("fillna",) + tuple(fill_funcs) and isinstance(fn, ast.Name):
+                            mv = _const(kws["method"]) if "method" in kws else None
+                            filled = mv in (None, "ffill", "pad") and forward_by_table
+                    if filled:
+                        ff = ff | {tg.id}
+                    else:
+                        ff = ff - {tg.id}
+        return ff
+
+    # is the repository's rule-driven fillna forward by its table?  (all Rule(...) methods are forward: checked above)
+    forward_by_table = not any(fd.rule == "R-TIME" and "column rule" in fd.construct for fd in res.findings)
+    nfun = 0
+    for f in model.all_functions():
+        if f.module.relpath.startswith(PREP_EXCLUDED_PKGS):
+            continue
+        nfun += 1
+        scan_block(f, f.node.body, set())
+    res.units["preparation_functions_scanned"] = nfun
+    res.units["time_direction_sites"] = n
+    return n
+
+
+def binning_rule(model, res):
+    """(d) one binning convention for every resampling reachable from Actuator.switch_interval."""
+    sw = model.func("Actuator.switch_interval")
+    sites = []      # (FuncInfo, call node, {closed,label,origin,offset} as source text or None)
+    KEYS = ("closed", "label", "origin", "offset")      # `on` / `level` select the time axis, not the bins
+    PANDAS_DEFAULT = {"origin": "'start_day'"}            # DataFrame.resample(origin='start_day') is the default
+    wrappers = {}
+    for m in model.modules.values():
+        for fn in m.funcs.values():
+            if fn.name == "resample" and any(isinstance(x, ast.Call) and isinstance(x.func, ast.Attribute) and x.func.attr == "resample"
+                                             for x in ast.walk(fn.node)):
+                wrappers[fn.name] = fn
+    funcs = [sw] + [c.methods["_resample"] for c in sorted(model.subclasses("Market"), key=lambda c: c.name) if "_resample" in c.methods]
+
+    def conv(fn, call, binding):
+        """convention of one pandas .resample call; `binding` maps a wrapper's parameter to the caller's argument text."""
+        out = {}
+        pos = ["rule", "axis", "closed", "label"]  # pandas positional order (old signature); only keywords are used in the repo
+        kws = {k.arg: k.value for k in call.keywords if k.arg}
+        for i, a in enumerate(call.args[1:], start=1):
+            if i < len(pos):
+                kws.setdefault(pos[i], a)
+        for k in KEYS:
+            v = kws.get(k)
+            if v is None:
+                out[k] = None
+            elif isinstance(v, ast.Name) and v.id in binding:
+                out[k] = binding[v.id]
+            else:
+                c = _const(v)
+                out[k] = None if c is None else ast.unparse(v)
+        for k, dv in PANDAS_DEFAULT.items():
+            if out.get(k) is not None and out[k].replace('"', "'") == dv:
+                out[k] = None
+        return out
+
+    for fn in funcs:
+        for x in ast.walk(fn.node):
+            if not isinstance(x, ast.Call):
+                continue
+            if isinstance(x.func, ast.Attribute) and x.func.attr == "resample":
+                sites.append((fn, x, conv(fn, x, {})))
+            elif isinstance(x.func, ast.Name) and x.func.id in wrappers:
+                w = wrappers[x.func.id]
+                binding = {}
+                for i, p in enumerate(w.params):
+                    a = x.args[i] if i < len(x.args) else next((k.value for k in x.keywords if k.arg == p), None)
+                    if a is None:
+                        d = w.defaults.get(p)
+                        c = _const(d) if d is not None else None
+                        binding[p] = None if (d is None or c is None) else ast.unparse(d)
+                    else:
+                        c = _const(a)
+                        binding[p] = None if c is None else ast.unparse(a)
+                for y in ast.walk(w.node):
+                    if isinstance(y, ast.Call) and isinstance(y.func, ast.Attribute) and y.func.attr == "resample":
+                        sites.append((fn, x, conv(w, y, binding)))
+    idx = [s for s in sites if s[0] is sw and "index" in ast.unparse(s[1])]
+    if not idx:
+        raise AnalysisError("C02: the resampling that defines the bar index was not found in Actuator.switch_interval")
+    ref = idx[-1][2]
+    for fn, call, cv in sites:
+        ok = cv == ref
+        res.ob("R-TIME", f"{fn.qualname}: `{ast.unparse(call)[:50]}` bins like the bar index ({ {k: v for k, v in cv.items() if v is not None} or 'pandas defaults'})",
+               fn.loc(call), ok=ok)
+        if not ok:
+            diff = {k: (cv[k], ref[k]) for k in cv if cv[k] != ref[k]}
+            res.find("R-TIME", fn.qualname, f"resampling `{ast.unparse(call)[:60]}` bins differently from the bar index", fn.loc(call),
+                     f"{fn.qualname} resamples with {diff} (this frame, bar index): bar k of this frame aggregates minutes that belong to "
+                     f"another bar of the time index / price frame, so bar k can contain data of bar k+1")
+    return len(sites)
+
+
 # ------------------------------------------------------------------------------------------ R-INPUT
 def _aliases_frame(e: ast.AST) -> bool:
     """Does expression `e` denote (a view that writes through to) an input frame under copy-on-write?  Only the frame
@@ -380,6 +603,8 @@ def run(model, tier="quick"):
     res.floor("in_loop_functions_scanned", nfun, 150)
     res.floor("frame_reads_classified", reads, 14)
     shift_rule(model, res)
+    res.floor("time_direction_sites", prep_rule(model, res), 8)
+    res.floor("resampling_sites", binning_rule(model, res), 8)
     nf, ns = input_rule(model, res)
     res.units["functions_scanned_for_sinks"] = nf
     res.units["sinks_found"] = ns
